@@ -2,7 +2,7 @@
 import collections
 import re
 
-from mirlib import AnchorMissing, decision_paths, describe_call, describe_operand, describe_rvalue, dom_guards, guards, _suffix_match
+from mirlib import op_place, path_str, AnchorMissing, decision_paths, describe_call, describe_operand, describe_rvalue, dom_guards, guards, _suffix_match
 from rules.common import where
 from mirlib import switch_desc as switch_desc_
 
@@ -28,24 +28,47 @@ def table(body, first="self", second="other"):
     exits = set(body.exits())
     paths = decision_paths(body, 0, lambda x: x in exits, max_paths=400000)
     cells = collections.defaultdict(lambda: {"consts": set(), "computed": set(), "calls": set(), "casts": set(), "returns_arg": False})
+    # `match (self, other) { (A, B) => .. }` matches on the components of a pair built from the two: the same tests under another name
+    alias = {}
+    for sb in range(body.n):
+        if body.is_cleanup(sb) or body.term(sb)["k"] != "switch":
+            continue
+        si = body.switch_info(sb)
+        if si and si.get("kind") == "disc":
+            d_ = switch_desc_(body, sb) or ""
+            nm_ = d_[5:-1].strip("(*)") if d_.startswith("disc(") else None
+            if nm_ in (first, second):
+                alias[path_str(body, body.resolve(si["place"]))] = nm_
     for cons, end, trail in paths:
+        cons = dict(cons)
+        for k_, nm_ in alias.items():
+            if k_ in cons and nm_ not in cons:
+                cons[nm_] = cons[k_]
         a = cons.get(first)
         bb = cons.get(second)
         if a is None:
             continue
         cell = cells[(a, bb if bb is not None else "*")]
+        # what the function answers on this path: the value the return place holds at the end, followed through the locals it was copied from (a result
+        # produced by a spliced helper arrives through the helper's own return local)
+        env = {}
         for blk in trail:
             for s in body.stmts(blk):
                 if s[0] != "A":
                     continue
-                if s[1][0] == 0 and not s[1][1]:
-                    d = describe_rvalue(body, s[2])
-                    if d.startswith("Ordering::") and d.endswith("()"):
-                        cell["consts"].add(d[len("Ordering::"):-2])
-                    elif d in ("True", "False"):
-                        cell["consts"].add(d)
+                if not s[1][1]:
+                    rv = s[2]
+                    src = op_place(rv[1]) if rv[0] == "use" else None
+                    if src is not None and not src[1] and src[0] in env:
+                        env[s[1][0]] = env[src[0]]
                     else:
-                        cell["computed"].add(d[:60])
+                        d = describe_rvalue(body, rv)
+                        if d.startswith("Ordering::") and d.endswith("()"):
+                            env[s[1][0]] = ("c", d[len("Ordering::"):-2])
+                        elif d in ("True", "False"):
+                            env[s[1][0]] = ("c", d)
+                        else:
+                            env[s[1][0]] = ("x", d[:60])
                 if s[2][0] == "cast":
                     k = s[2][1]
                     if k.startswith("FloatToInt") or k.startswith("IntToFloat") or k.startswith("IntToInt"):
@@ -54,8 +77,11 @@ def table(body, first="self", second="other"):
             if cl is not None:
                 nm = cl.via_name or cl.name or "?"
                 cell["calls"].add(nm)
-                if cl.dest[0] == 0 and not cl.dest[1]:
-                    cell["computed"].add(nm)
+                if cl.dest is not None and not cl.dest[1]:
+                    env[cl.dest[0]] = ("x", nm)
+        res = env.get(0)
+        if res is not None:
+            cell["consts" if res[0] == "c" else "computed"].add(res[1])
     return cells
 
 
@@ -183,7 +209,8 @@ def run(ctx):
                 if c is None:
                     continue
                 if f1:
-                    may_equal = "Equal" in c["consts"] or any(x in ("cmp", "partial_cmp") or x.startswith("cmp_") for x in c["computed"])
+                    # (any answer that is not a constant can be Equal: cmp, partial_cmp, a helper, `partial.unwrap_or(Equal)`)
+                    may_equal = "Equal" in c["consts"] or bool(c["computed"])
                     r.check(not may_equal, "coherence/%s-%s/unequal-never-compares-Equal" % (a, b), loc,
                             "eq(%s, %s) is constant false and compare never yields Equal" % (a, b),
                             "eq(%s, %s) is constant false but compare(%s, %s) can yield Equal (%s): two unequal values compare as equal" % (a, b, a, b, sorted(c["consts"] | c["computed"])))
@@ -364,7 +391,15 @@ def run(ctx):
             sign_tests = [sb for sb in range(b.n) if not b.is_cleanup(sb) and b.term(sb)["k"] == "switch" and "Lt(" in switch_desc_(b, sb) and ", 0)" in switch_desc_(b, sb)]
             wide = "i%d" % (2 * max(int(mm.group(2)), int(mm.group(4))))
             widened = [1 for i, j, p_, rv, line in b.assigns() if rv[0] == "cast" and str(rv[1]).startswith("IntToInt") and b.locals[p_[0]] == wide and not p_[1]]
-            r.check(bool(sign_tests) or len(widened) >= 2, "%s/sign-decided-first-or-both-widened" % nm, where(b),
+            # (or the conversion of the signed operand into the unsigned domain is a checked one whose failure - the negative case - is decided on its own)
+            checked = False
+            for c in b.calls:
+                if (c.name in ("try_from", "try_into") or c.via_name in ("try_from", "try_into")):
+                    for si in b.result_switches(c):
+                        ve = b.variant_edges(si["block"]) or {}
+                        if "Ok" in ve and "Err" in ve and ve["Ok"] != ve["Err"]:
+                            checked = True
+            r.check(bool(sign_tests) or len(widened) >= 2 or checked, "%s/sign-decided-first-or-both-widened" % nm, where(b),
                     "a negative signed operand is decided by its sign alone before the unsigned comparison" if sign_tests else "both operands are widened to %s before they are compared" % wide,
                     "%s neither tests the sign of its signed operand nor widens both operands to %s: the mixed comparison goes through a conversion that cannot represent every value" % (nm, wide))
 
@@ -379,7 +414,7 @@ def run(ctx):
             c = ic.get((k, k))
             r.check(c is not None and (bool(c["computed"]) or "cmp" in c["calls"]), "Item/%s-%s/diagonal-computed" % (k, k), where(it), "same-kind items are compared by content")
         ss = ic.get((b, b))
-        r.check(ss is not None and len([x for x in it.calls if x.via_name == "cmp"]) >= 3, "Item/Slot/key-then-value", where(it), "slots are ordered by key, then by value (lexicographic, consistent with derived Eq on both fields)")
+        r.check(ss is not None and len([x for bx in [it] + list(m.closures_of(it.defpath)) for x in bx.calls if x.via_name == "cmp"]) >= 3, "Item/Slot/key-then-value", where(it), "slots are ordered by key, then by value (lexicographic, consistent with derived Eq on both fields)")
         for adt in ("item::Item", "attr::Attr"):
             pe = m.implements(adt, "core::cmp::PartialEq")
             hs = m.implements(adt, "core::hash::Hash")
